@@ -12,6 +12,7 @@ import (
 	"github.com/biogo/biogo/index/kmerindex"
 	"github.com/biogo/biogo/seq/linear"
 	"verif/h/enum"
+	"verif/h/seqgen"
 )
 
 type kase struct {
@@ -136,9 +137,27 @@ func checkIndex(c *enum.Ctx, k kase) {
 			fail("KmerFrequencies", "frequency of %s is %d, it occurs %d times in %q", wordString(w, k.K, k.RNA), freq[kmerindex.Kmer(w)], len(ps), k.Seq)
 		}
 	}
-	// callbacks over every sub-range
+	// callbacks over every sub-range (long sequences of the size ladder: ranges that start or end within
+	// k of either end or of a power of two, against each other)
+	edge := func(p int) bool {
+		if len(k.Seq) <= 64 || p <= k.K+1 || p >= len(k.Seq)-k.K-1 {
+			return true
+		}
+		for b := 64; b <= len(k.Seq); b *= 2 {
+			if p >= b-k.K-1 && p <= b+1 {
+				return true
+			}
+		}
+		return false
+	}
 	for start := 0; start <= len(k.Seq); start++ {
+		if !edge(start) {
+			continue
+		}
 		for end := start; end <= len(k.Seq); end++ {
+			if !edge(end) {
+				continue
+			}
 			var got [][2]int
 			err := ki.ForEachKmerOf(s, start, end, func(_ *kmerindex.Index, pos, kmer int) { got = append(got, [2]int{pos, kmer}) })
 			var want [][2]int
@@ -183,6 +202,9 @@ func checkIndex(c *enum.Ctx, k kase) {
 			fail("ForEachKmerOf/foreign/windows", "index of %q iterating %q (k=%d): callbacks %v, valid windows %v", k.Seq, other, k.K, got, want)
 		}
 	}
+	// the maps are asked for too early (they may decline); that must not spoil them for later
+	ki.KmerIndex()
+	ki.StringKmerIndex()
 	ki.Build()
 	if _, ok := ki.KmerFrequencies(); ok {
 		fail("KmerFrequencies/after-build", "still reported after Build")
@@ -301,7 +323,7 @@ func check(c *enum.Ctx, k kase) {
 }
 
 func run(c *enum.Ctx) {
-	c.Rule("every index also iterates four foreign sequences (clean, with n/-/N/*, mixed case, with bytes 0x00/0x80/0xff); k=4: every sequence of length 5..7 (thorough 8) over {a,c,g,t,n} and every sequence of length 5..6 over {a,C,g,T,n,N} (case), every one of the 256 words queried, every sub-range [start,end) iterated; k=5..7: every sequence of length k+1..k+2 over {a,t,n}; k=8..10: every sequence of length k+1 over {a,n} (thorough {a,t,n}); RNA alphabet on fixed words; for every k<=6 (thorough 8) every word value for Format/KmerOf/GCof/ComplementOf against string operations; oracle: brute-force windows; non-trivial = sequences with at least one valid window")
+	c.Rule("every index also iterates four foreign sequences (clean, with n/-/N/*, mixed case, with bytes 0x00/0x80/0xff); k=4: every sequence of length 5..7 (thorough 8) over {a,c,g,t,n} and every sequence of length 5..6 over {a,C,g,T,n,N} (case), every one of the 256 words queried, every sub-range [start,end) iterated; k=5..7: every sequence of length k+1..k+2 over {a,t,n}; k=8..10: every sequence of length k+1 over {a,n} (thorough {a,t,n}); RNA alphabet on fixed words; the size ladder: sequences of 2^j+9 letters (j=6..9, thorough 10) with one invalid letter at every position around every power of two; the index maps are asked for once before Build; for every k<=6 (thorough 8) every word value for Format/KmerOf/GCof/ComplementOf against string operations; oracle: brute-force windows; non-trivial = sequences with at least one valid window")
 	c.Assume("positions of a k-mer are compared as sets", "a range shorter than k may return nil or an error but must not call back")
 	var cases []kase
 	maxL := 7
@@ -323,6 +345,24 @@ func run(c *enum.Ctx) {
 	}
 	for _, s := range []string{"acguacgu", "uuuuuu", "acgunacgu", "ACGUacgu"} {
 		cases = append(cases, kase{Kind: "index", K: 4, Seq: s, RNA: true})
+	}
+	// the size ladder: sequences of 2^j+9 letters (j = 6..9, thorough 10) over {a,c,g,t} with one invalid
+	// letter at every position from k+1 before a power of two to one behind it, and without any
+	topJ := 9
+	if !c.Quick {
+		topJ = 10
+	}
+	for j := 6; j <= topJ; j++ {
+		n := 1<<uint(j) + 9
+		base := []byte(seqgen.Fill("acgt", n))
+		cases = append(cases, kase{Kind: "index", K: 4, Seq: string(base)})
+		for b := 64; b <= n; b *= 2 {
+			for p := b - 6; p <= b+1 && p < n; p++ {
+				w := append([]byte{}, base...)
+				w[p] = 'n'
+				cases = append(cases, kase{Kind: "index", K: 4, Seq: string(w)}, kase{Kind: "index", K: 6, Seq: string(w)})
+			}
+		}
 	}
 	maxWK := 6
 	if !c.Quick {
